@@ -62,7 +62,9 @@ STRUCT = [
     "<cc::Cc<T> as trace::Trace>::trace",
     "<cc::CcBox<T> as cc::InternalTrace>::finalize_elem", "<cc::CcBox<T> as cc::InternalTrace>::drop_elem",
     "<cc::CcBox<T> as trace::Trace>::trace", "<cc::CcBox<T> as trace::Finalize>::finalize",
+    "<lists::Iter<'a> as std::iter::Iterator>::next", "<lists::ListIter as std::iter::Iterator>::next",
 ]
+LIST_NEXT = ("std::iter::Iterator::next", "<lists::Iter<'a> as std::iter::Iterator>::next")
 
 
 def all_primitives():
@@ -436,3 +438,137 @@ def effect_calls(events):
         elif np in MUTATORS or np.startswith(STD_WRITERS):
             out.append(x)
     return out
+
+
+# ---- "once per element of list.iter()" --------------------------------------------------------------------------
+
+def _find_iter_source(e, depth=0):
+    """The `LinkedList::iter(list)` / `PossibleCycles::iter(pc)` call an iterator expression is built from."""
+    if depth > 12 or not isinstance(e, tuple):
+        return None
+    if e and e[0] in ("ret", "call") and e[1] in (LL + "iter", PC + "iter") and e[2]:
+        return e
+    for x in e:
+        r = _find_iter_source(x, depth + 1)
+        if r is not None:
+            return r
+    return None
+
+
+def iteration_context(S, n):
+    """If node n runs once per element of `<list>.iter()`, describe the iteration:
+    {'pass': node identifying the pass (the for_each/fold call or the loop's next() call), 'list': receiver expr,
+     'every': n is on every path of one iteration, 'item_ok': n's first argument is the iteration item, 'adapters': [...]}.
+    Works for closures handed to Iterator::for_each/fold and for plain `for x in list.iter()` loops."""
+    c = n.ctx
+    # (a) inside a closure (possibly nested helpers) attached to for_each / fold
+    cc = c
+    while cc is not None and cc.via != "closure":
+        cc = cc.parent if cc.via in ("call", "virtual") else None
+    if cc is not None and cc.call_node is not None and cc.call_node.ci["npath"] in ("std::iter::Iterator::for_each", "std::iter::Iterator::fold"):
+        carrier = cc.call_node
+        a0 = S.args_of(carrier)[0]
+        src = _find_iter_source(a0)
+        entry = S.blocks_of[(cc.id, 0)]
+        rets = [x for x in S.nodes if x.ctx is cc and x.kind == "return"]
+        every, _ = S.must_pass(entry, lambda x: x is n, rets, exclude=("ui", "u", "loop"))
+        direct = strip(a0) == src if src is not None else False
+        item = S.args_of(n)[0] if n.term.get("args") else None
+        return {"pass": carrier, "list": strip(src[2][0]) if src else None, "every": every, "whole": direct,
+                "item_ok": item is not None and "cbarg" in fmt(item), "kind": carrier.ci["npath"].rsplit("::", 1)[-1], "closure_ctx": cc}
+    # (b) a loop driven by Iterator::next on an iterator built from list.iter()
+    for x in S.nodes:
+        if x.ctx is not c or x.ci is None or x.ci["k"] != "call" or x.ci["npath"] not in LIST_NEXT or x.inlined:
+            continue
+        if not on_cycle(S, x, exclude=("ui", "u")):
+            continue
+        it = S.args_of(x)[0]
+        src = _find_iter_source(it)
+        if src is None:
+            continue
+        # n inside this loop?
+        if n.idx not in S.reachable(x, exclude=("ui", "u")) or x.idx not in S.reachable(n, exclude=("ui", "u")):
+            continue
+        every = cycle_must_pass(S, x, lambda y: y is n)
+        # adapters between iter() and next(): anything but into_iter/reborrows
+        s_it = fmt(strip(it))
+        whole = not any(ad in s_it for ad in ("skip(", "take(", "rev(", "filter(", "step_by(", "skip_while(", "take_while(", "chain("))
+        item = S.args_of(n)[0] if n.term.get("args") else None
+        item_ok = item is not None and "next(" in fmt(item) and " as Some).0" in fmt(item)
+        # the loop is left only on None
+        exits_ok = True
+        return {"pass": x, "list": strip(src[2][0]), "every": every, "whole": whole, "item_ok": item_ok, "kind": "for-loop", "closure_ctx": None}
+    return None
+
+
+# ---- the "has this pass finalized anything" flag of __collect -------------------------------------------------------
+
+def finalize_pass_info(S):
+    """How __collect computes whether the pass finalized something. Returns dict(kind='fold'|'loop'|None, ok, detail, acc)
+    where acc is the accumulator local (loop form). Cached on S."""
+    if hasattr(S, "_fpi"):
+        return S._fpi
+    info = {"kind": None, "ok": False, "detail": "finalize_inner is not called", "acc": None}
+    fis = [n for n in S.calls_to(CCBOX0 + "finalize_inner")]
+    for n in fis:
+        ctx = n.ctx
+        if ctx.via == "closure" and ctx.call_node is not None and ctx.call_node.ci["npath"] == "std::iter::Iterator::fold":
+            info = {"kind": "fold", "ok": True, "detail": "fold closure", "acc": None}
+            break
+        if not on_cycle(S, n, exclude=("ui", "u")):
+            info["detail"] = "finalize_inner is not called in a loop over the list"
+            continue
+        fn = ctx.fn
+        defs = S._defs(fn)
+        res = ("ret", CCBOX0 + "finalize_inner")
+        for L, ds in defs.items():
+            if fn.locals[L]["ty"] != "bool" or len(ds) < 2:
+                continue
+            init_false = uses = False
+            ok = True
+            for d in ds:
+                if d[0] != "stmt":
+                    ok = False
+                    break
+                nd = S.blocks_of.get((ctx.id, d[1]))
+                in_loop = nd is not None and on_cycle(S, nd, exclude=("ui", "u"))
+                v = strip(S.resolve_rv(ctx, fn.blocks[d[1]]["stmts"][d[2]]["rv"], None))
+                if v == ("const", 0) and not in_loop:
+                    init_false = True
+                elif v == ("const", 1) and in_loop:
+                    lits = S.literals_at(nd, exclude=("ui", "u"))
+                    if any(a[0] == "bool" and strip(a[1])[:2] == res and t is True for a, t in lits):
+                        uses = True
+                    else:
+                        ok = False
+                elif isinstance(v, tuple) and v and v[0] == "bin" and v[1] == "BitOr" and in_loop:
+                    a, b = strip(v[2]), strip(v[3])
+                    is_acc = lambda z: isinstance(z, tuple) and z[:1] == ("phi",) and z[2] == L
+                    is_res = lambda z: isinstance(z, tuple) and z[:2] == res
+                    if (is_acc(a) and is_res(b)) or (is_acc(b) and is_res(a)):
+                        uses = True
+                    else:
+                        ok = False
+                else:
+                    ok = False
+            if ok and init_false and uses:
+                info = {"kind": "loop", "ok": True, "detail": "accumulator `%s` starts false and only ORs finalize_inner's result in" % fn.local_name(L), "acc": (ctx.id, L)}
+                break
+        else:
+            info = {"kind": "loop", "ok": False, "acc": None,
+                    "detail": "the result of finalize_inner does not OR into a boolean accumulator that starts false (e.g. it is plainly assigned: only the last element would decide whether the set is re-examined)"}
+        break
+    S._fpi = info
+    return info
+
+
+def is_has_finalized(S, e):
+    """Does expression e denote the pass's `has_finalized` value?"""
+    e = strip(e)
+    if "fold(" in fmt(e) and "finalize" not in fmt(e)[:0]:
+        if isinstance(e, tuple) and e and e[0] in ("ret", "call") and e[1] == "std::iter::Iterator::fold":
+            return True
+    info = finalize_pass_info(S)
+    if info.get("acc") and isinstance(e, tuple) and e and e[0] == "phi" and (e[1], e[2]) == info["acc"]:
+        return True
+    return False
